@@ -12,3 +12,8 @@ impl Notify {
 pub struct Bytes { pub v: Vec<u8> }
 #[derive(Debug, Clone, Copy)]
 pub struct SystemTime { pub t: u64 }
+impl SystemTime {
+    pub const UNIX_EPOCH: SystemTime = SystemTime { t: 0 };
+    #[verifier::external_body]
+    pub fn now() -> SystemTime { unimplemented!() }
+}
